@@ -688,8 +688,8 @@ theorem nested_root_hidden_from_outer_walk :
 
 /-- BEFORE / AFTER 0109402 (finding `cross_root_shared_destination`, repaired): two FILES given as search paths,
     `foo_bar.txt` and `foo-bar.txt`, replacement `baz`.  Every root is conflict-free on its own; without the check
-    of the merged list both renames to `baz.txt` are planned, the pre-flight passes (the destination does not exist
-    yet), STEP 3 reports success and one of the two files is gone.  With the check the scan is refused. -/
+    of the merged list both renames to `baz.txt` are planned, the exists test of the pre-flight passes (the destination
+    does not exist yet), STEP 3 reports success and one of the two files is gone.  With the check the scan is refused. -/
 theorem cross_root_before_and_after_fix :
     let t : Tree := [([b!"proj"], .dir 493), ([b!"proj", b!"foo_bar.txt"], .file b!"A" 420),
                      ([b!"proj", b!"foo-bar.txt"], .file b!"B" 420)]
@@ -699,8 +699,11 @@ theorem cross_root_before_and_after_fix :
     let r2 : Ren := ⟨[b!"proj", b!"foo-bar.txt"], [b!"proj", b!"baz.txt"], .file⟩
     planMulti { T0 with crossRootCheck := false } o0 vm (roots.map (entriesOf t)) = .ok [r1, r2] ∧
     preflightOk t [r1, r2] = true ∧
-    (applyPlan t ⟨[], [r1, r2]⟩).outcome = .ok ∧
-    (applyPlan t ⟨[], [r1, r2]⟩).tree.length = 2 ∧
+    (renamePhase t [] (sortRens [r1, r2])).outcome = .ok ∧
+    (renamePhase t [] (sortRens [r1, r2])).tree.length = 2 ∧
+    -- second net since repo commit 01297aa: `apply_plan` itself refuses such a plan, tree untouched
+    (applyPlan t ⟨[], [r1, r2]⟩).outcome = .sharedDest ∧
+    (applyPlan t ⟨[], [r1, r2]⟩).tree = t ∧
     planMulti { T0 with crossRootCheck := true } o0 vm (roots.map (entriesOf t)) = .error 1 ∧
     -- sibling directory roots collide in the same way
     planMulti { T0 with crossRootCheck := true } o0 vm
